@@ -249,9 +249,9 @@ theorem dot_const_lift (g P v : V3 K) :
   constructor <;> simp [dot, constV3, liftV3]
 
 omit [LinearOrder K] [IsStrictOrderedRing K] in
-theorem uniformGravity_fold_eps (g : V3 K) (z : K) (bv : List (GBody K × Vel K)) (acc : Jet K) :
+theorem uniformGravity_fold_eps (g : V3 K) (gm z : K) (bv : List (GBody K × Vel K)) (acc : Jet K) :
     ((bv.map fun p => liftGBody p.1 p.2).foldl (fun pe b =>
-        pe - b.mass * (dot (constV3 g) (b.X.p + b.X.R.mulVec b.com) + Jet.const z)) acc).eps
+        pe - b.mass * (dot (constV3 g) (b.X.p + b.X.R.mulVec b.com) + Jet.const gm * Jet.const z)) acc).eps
       = acc.eps - powerList (uniformGravityForce g (bv.map Prod.fst)) (bv.map Prod.snd) := by
   induction bv generalizing acc with
   | nil => simp [powerList, uniformGravityForce]
@@ -268,9 +268,9 @@ theorem uniformGravity_fold_eps (g : V3 K) (z : K) (bv : List (GBody K × Vel K)
 
 omit [LinearOrder K] [IsStrictOrderedRing K] in
 /-- **UniformGravity**: total power of the body forces = −d(PE)/dt, no dissipation; any number of bodies -/
-theorem uniformGravity_power_eq (g : V3 K) (z : K) (bv : List (GBody K × Vel K)) :
+theorem uniformGravity_power_eq (g : V3 K) (gm z : K) (bv : List (GBody K × Vel K)) :
     powerList (uniformGravityForce g (bv.map Prod.fst)) (bv.map Prod.snd)
-      = -(uniformGravityPE (constV3 g) (Jet.const z) (bv.map fun p => liftGBody p.1 p.2)).eps := by
+      = -(uniformGravityPE (constV3 g) (Jet.const gm) (Jet.const z) (bv.map fun p => liftGBody p.1 p.2)).eps := by
   unfold uniformGravityPE
   rw [uniformGravity_fold_eps]
   simp
